@@ -179,6 +179,11 @@ class _MPProxy:
                                       kwargs=kwargs or {}, **kw)
         k = len(STATE['procs'][stage])
         if plan.get('world') is not None:
+            # the oracle is indexed by dispatch number unless the plan names the workers itself
+            # (selection: by parent, because the scheduler's dispatch order depends on the schedule)
+            index_of = plan['world'].get('index_of')
+            if index_of is not None:
+                k = index_of(kwargs or {})
             p = _FakeProcess(stage, k, target, args, kwargs or {})
         else:
             p = self._real.Process(target=_child_entry, args=(stage, k, target, args, kwargs or {}), **kw)
